@@ -93,4 +93,11 @@ def cmp3(got, want):
         return 'ok'
     if definitely_differ(got, want):
         return 'violation'
+    # a size fixed by the inputs' shapes against one that depends on the DATA
+    # (a count of singular values below a threshold): they differ for inputs
+    # of lower numerical rank
+    from ..poly import data_dependent, Poly
+    w_, g_ = Poly.coerce(want), Poly.coerce(got)
+    if w_.all_free() and data_dependent(g_):
+        return 'violation'
     return 'unknown'
